@@ -8,5 +8,5 @@ for c in "$@"; do
   echo "$c rc=$rc violations=$(grep -c VIOLATION work/seed_$c.out) | $(tail -1 work/seed_$c.err | cut -c1-200)"
   grep VIOLATION work/seed_$c.out | head -3
 done
-git -C /repo checkout -- .
+git -C /repo checkout -- . && git -C /repo clean -fdq src
 git -C /repo status --short
